@@ -417,7 +417,8 @@ def run_property(prop, mod_name, tier, seed):
         ev = a['evaluations']
         ev_all = ev
         ev = ev - sum(a['known'].values())      # cases excluded by an open known finding carry no labels
-        if not a['failures'] and not a['errors'] and ev >= 500 and a['skipped_budget'] < ev_all:
+        # an enumeration cut short by the wall budget is not a representative sample: its guards are not applied
+        if not a['failures'] and not a['errors'] and ev >= 500 and a['skipped_budget'] < ev_all and not (c.enumerate is not None and a['skipped_budget'] > 0):
             for lab, share in c.min_share.items():
                 got = a['labels'].get(lab, 0) / ev
                 if got < share:
